@@ -112,3 +112,42 @@ def s7(ctx):
         ev, res = ctx.eval(b, no_inline=(r"::mlock$",))
         bad = [e for e in res.log if (e["kind"] == "call" and e.get("atomic") and e["atomic"] not in ("load",)) or (e["kind"] == "store" and e.get("how") == "store" and tag(e["base"]) != "param") or is_raw_write(e)]
         yield Ob(key_of("C05-S7", b.path, "no-store"), not bad, "%s performs no store into arena memory" % b.path.split("::")[-2 if "closure" in b.path else -1], b.loc(), {"stores": [ctx.loc(e) for e in bad][:3]})
+
+
+@rule("C05-S8", "C05", 2, "a valid file reopens: the open functions refuse a stored cursor only when it lies outside [data_offset, mapped length] - the cursor of an arena that "
+      "was filled to its last byte equals the capacity and must be accepted (an exclusive upper bound turns a full arena into `InvalidInput` on reopen)",
+      configs=MEMCFG, also=("C06",))
+def s8(ctx):
+    import dnf as D
+    for name in ("map_mut_in", "map_in"):
+        b = ctx.facts.one(r"^memory::Memory::<R, PR, H>::%s::\{closure#0\}$" % name)
+        ev, res = ctx.eval(b, no_inline=(r"::mlock$", r"^sanity_check$"))
+        aggs = [e for e in res.log if e["kind"] == "agg" and e["adt"] == "memory::Memory" and not e["chain"]]
+        la = [c["result"] for c in res.log if c["kind"] == "call" and c["callee"].endswith("load_allocated")]
+        if len(aggs) != 1 or not la:
+            yield Ob(key_of("C05-S8", b.path, "refuses-only-out-of-range-cursors"), False, "%s: constructor aggregate / cursor load not found" % name, b.loc())
+            continue
+        do = canon(struct_get(aggs[0]["value"], "data_offset"))
+        cap = canon(struct_get(aggs[0]["value"], "cap"))
+        a = canon(la[0])
+        errs = [r for r in res.log if r["kind"] == "ret0" and not r["chain"] and tag(r["value"]) == "variant" and r["value"][2] == "Err"]
+        bad = []
+        n = 0
+        for r in errs:
+            cond = D.block_dnf(ev, res, b, r["bb"], lit=canon)
+            if cond is None:
+                bad.append((r, "path condition too large"))
+                continue
+            for c in cond:
+                if not any(mentions(f, a) for f in c if f[0] == "cmp"):
+                    continue
+                o = Order(set(f for f in c if f[0] == "cmp"))
+                if o.le(do, a) and o.le(a, cap):
+                    continue        # the cursor had passed its validation: refused for another reason (lock, sanity bytes read later, ..)
+                n += 1
+                if not (o.le(add(a, const(1)), do) or o.le(add(cap, const(1)), a)):
+                    bad.append((r, "refused under {%s}" % "; ".join(sorted(show(f) for f in c if f[0] == "cmp" and mentions(f, a)))[:200]))
+        yield Ob(key_of("C05-S8", b.path, "refuses-only-out-of-range-cursors"), n >= 1 and not bad,
+                 "%s: %d refusal case(s) that depend on the stored cursor, %s" % (name, n, "each implies cursor < data_offset or cursor > mapped length" if not bad else
+                                                                                  "%d of them also refuse a cursor inside the bounds: %s" % (len(bad), bad[0][1])),
+                 ctx.loc(bad[0][0]) if bad else b.loc())
